@@ -185,3 +185,19 @@ func verifHeapRemove(i int) *tssItem { return heap.Remove(&tssQ, i).(*tssItem) }
 //@   requires conn != nil && log != nil && mtrcs != nil
 //@   noerror buffer.Clear, payload.SerializeTo, scmpLayer.SerializeTo, scionLayer.SerializeTo, udpLayer.SerializeTo, e2eLayer.SerializeTo, e2eExtn.SerializeTo, spao.ComputeAuthCMAC, scion.DeriveHostHostKey
 //@   callsite ntp.DecodePacket 0 scope len(udpLayer.Payload) <= 48
+// The clauses below are stated at the serialisation calls (the last point at which the project's code still owns
+// the layer values; ordinals are in source order: 0 = SCMP reply, 1 = forwarding, 2 = NTP reply for the SCION layer).
+// Forwarding: only packets received on the end-host port, addressed to another port than the listener's and never
+// back to the end-host port; the UDP payload is the one received.
+//@   callsite udpLayer.SerializeTo 0 requires localConnPort == scion.EndhostPort && udpLayer.DstPort != scion.EndhostPort && int(udpLayer.DstPort) != localHostPort
+//@   callsite payload.SerializeTo 1 requires sameslice(payload, lastreadof(udpLayer).Payload)
+// A request carrying the time-service authenticator for which the key could be derived is handled only if its MAC verified.
+//@   callsite handleRequest 0 requires authKey == nil || authenticated
+// Replies have source and destination ISD-AS and host address exchanged with respect to the packet as decoded; NTP
+// replies also have the UDP ports exchanged; the SCMP payload is echoed.
+//@   callsite scionLayer.SerializeTo 0 requires scionLayer.DstIA == lastreadof(scionLayer).SrcIA && scionLayer.SrcIA == lastreadof(scionLayer).DstIA && scionLayer.DstAddrType == lastreadof(scionLayer).SrcAddrType && scionLayer.SrcAddrType == lastreadof(scionLayer).DstAddrType
+//@   callsite scionLayer.SerializeTo 0 requires sameslice(scionLayer.RawDstAddr, lastreadof(scionLayer).RawSrcAddr) && sameslice(scionLayer.RawSrcAddr, lastreadof(scionLayer).RawDstAddr)
+//@   callsite payload.SerializeTo 0 requires sameslice(payload, lastreadof(scmpLayer).Payload)
+//@   callsite scionLayer.SerializeTo 2 requires scionLayer.DstIA == lastreadof(scionLayer).SrcIA && scionLayer.SrcIA == lastreadof(scionLayer).DstIA && scionLayer.DstAddrType == lastreadof(scionLayer).SrcAddrType && scionLayer.SrcAddrType == lastreadof(scionLayer).DstAddrType
+//@   callsite scionLayer.SerializeTo 2 requires sameslice(scionLayer.RawDstAddr, lastreadof(scionLayer).RawSrcAddr) && sameslice(scionLayer.RawSrcAddr, lastreadof(scionLayer).RawDstAddr)
+//@   callsite udpLayer.SerializeTo 1 requires udpLayer.DstPort == lastreadof(udpLayer).SrcPort && udpLayer.SrcPort == lastreadof(udpLayer).DstPort
